@@ -21,28 +21,62 @@ def sh(cmd, cwd=None, timeout=3600):
     return subprocess.run(cmd, cwd=cwd, stdout=subprocess.PIPE, stderr=subprocess.STDOUT, text=True, timeout=timeout)
 
 
+# properties anchored in functions that the source-to-Lean translators cover
+MOD_FUNCS = {
+    "C01": ["ac_generate_ac", "mac_pad1", "mac_pad2"],
+    "C02": ["ac_generate_arpc_1", "ac_generate_arpc_2", "tools_xor", "mac_pad2"],
+    "C03": ["kd_derive_icc_mk_a", "kd_derive_icc_mk_b", "tools_xor"],
+    "C04": ["kd_derive_common_sk", "kd_derive_visa_sm_sk", "tools_xor"],
+    "C06": ["sm_generate_command_mac"],
+    "C07": ["sm_encrypt_command_data", "mac_pad2"],
+    "C08": ["ac_generate_ac", "ac_generate_arpc_1", "ac_generate_arpc_2", "kd_derive_icc_mk_a", "kd_derive_icc_mk_b",
+            "kd_derive_common_sk", "kd_derive_visa_sm_sk", "sm_generate_command_mac", "sm_encrypt_command_data",
+            "sm_format_vis", "sm_format_iso2"],
+    "C11": ["cvv_generate_cvc3"],
+    "C12": ["sm_format_vis", "sm_format_iso2", "tools_xor"],
+    "C13": ["kd_derive_icc_mk_a", "kd_derive_icc_mk_b", "kd_derive_common_sk", "kd_derive_visa_sm_sk"],
+    "C15": ["ac_generate_ac", "ac_generate_arpc_1", "ac_generate_arpc_2", "kd_derive_common_sk", "kd_derive_visa_sm_sk",
+            "sm_generate_command_mac", "sm_encrypt_command_data", "sm_format_vis", "sm_format_iso2", "cvv_generate_cvc3"],
+    "C16": ["kd_derive_icc_mk_a", "kd_derive_icc_mk_b", "sm_format_vis", "sm_format_iso2"],
+    "C19": ["mac_pad1", "mac_pad2", "tools_xor", "tools_odd_parity"],
+}
+
+
+def gen_obligations(pid):
+    out = ["Pyemv.ModRefines." + n for n in MOD_FUNCS.get(pid, [])]
+    if pid == "C08":
+        out += json.load(open(os.path.join(LEAN, "obligations.json"))).get("C08_gen", [])
+    return out
+
+
 def lake_build(pid):
-    """(ok, log, gen_problem). Serialised by a file lock so that checks started in parallel do not race.
-    For C08 the Lean definitions of the eight classes are first regenerated from the repository's
-    current cvn.py by the translator, then `PyemvGen` (generated definitions + per-class refinement
-    proofs) is built as well."""
+    """(ok, log, gen_problems). Serialised by a file lock so that checks started in parallel do not race.
+    For the properties anchored in translated functions the Lean definitions are first regenerated from the
+    repository's current source by the translators, then the refinement proofs (generated definition =
+    hand-written Impl model; generated class = profile row) are built against them."""
     os.makedirs(os.path.join(LEAN, ".lake"), exist_ok=True)
+    problems = []
     with open(os.path.join(LEAN, ".lake", "verif.lock"), "w") as lk:
         fcntl.flock(lk, fcntl.LOCK_EX)
         r = sh(["lake", "build"], cwd=LEAN)
-        if r.returncode != 0 or pid != "C08":
-            return r.returncode == 0, r.stdout, None
-        t = sh([sys.executable, os.path.join(core.HERE, "translate_cvn.py"), core.REPO,
-                os.path.join(LEAN, "PyemvGen", "CvnGen.lean")])
-        if t.returncode != 0:
-            return True, r.stdout, "translator: " + t.stdout.strip()[-300:]
-        g = sh(["lake", "build", "PyemvGen"], cwd=LEAN)
-        if g.returncode != 0:
-            errs = [ln for ln in g.stdout.split("\n") if ln.startswith("error:")][:4]
-            return True, r.stdout, "per-class refinement no longer checks against the current cvn.py: " + " | ".join(errs)[:900]
-        return True, r.stdout, None
-
-
+        if r.returncode != 0:
+            return False, r.stdout, problems
+        jobs = []
+        if pid in MOD_FUNCS:
+            jobs.append(("translate_py.py", "ModGen.lean", "PyemvGen.ModRefines", "ModRefines"))
+        if pid == "C08":
+            jobs.append(("translate_cvn.py", "CvnGen.lean", "PyemvGen.CvnRefines", "CvnRefines"))
+        for script, out, target, tag in jobs:
+            t = sh([sys.executable, os.path.join(core.HERE, script), core.REPO, os.path.join(LEAN, "PyemvGen", out)])
+            if t.returncode != 0:
+                problems.append((tag, "translator (" + script + "): " + t.stdout.strip()[-300:]))
+                continue
+            g = sh(["lake", "build", target], cwd=LEAN)
+            if g.returncode != 0:
+                errs = [ln for ln in g.stdout.split("\n") if ln.startswith("error:")][:4]
+                problems.append((tag, f"{tag}: the definitions translated from the current source are no longer proved "
+                                      "equal to the model: " + " | ".join(errs)[:900]))
+        return True, r.stdout, problems
 def strip_comments(src):
     src = re.sub(r"/-.*?-/", lambda m: "\n" * m.group(0).count("\n"), src, flags=re.S)
     return re.sub(r"--.*", "", src)
@@ -64,22 +98,24 @@ def grep_forbidden():
 
 def obligations(pid, gen=True):
     reg = json.load(open(os.path.join(LEAN, "obligations.json")))
-    return reg.get(pid, []) + (reg.get(pid + "_gen", []) if gen else [])
+    return reg.get(pid, []) + (gen_obligations(pid) if gen else [])
 
 
-def audit(pid, workdir, gen_ok=True):
-    """#print axioms for every theorem registered for the property. Returns (names, discharged, problems)."""
+def audit(pid, workdir, broken=()):
+    """#print axioms for every theorem registered for the property. Returns (names, discharged, problems).
+    `broken` lists the generated-refinement modules that did not build (their theorems count as not discharged)."""
     names = obligations(pid, gen=True)
     if not names:
         return [], [], [f"no theorem registered for {pid}"]
-    has_gen = bool(json.load(open(os.path.join(LEAN, "obligations.json"))).get(pid + "_gen")) and gen_ok
-    if not gen_ok:
-        names_to_print = obligations(pid, gen=False)
-    else:
-        names_to_print = names
+    printable = [n for n in names if not any(("." + b + ".") in n for b in broken)]
+    imports = "import PyemvProps\n"
+    if any(".ModRefines." in n for n in printable):
+        imports += "import PyemvGen.ModRefines\n"
+    if any(".CvnRefines." in n for n in printable):
+        imports += "import PyemvGen.CvnRefines\n"
     path = os.path.join(workdir, f"Audit_{pid}.lean")
     with open(path, "w") as f:
-        f.write("import PyemvProps\n" + ("import PyemvGen\n" if has_gen else "") + "".join(f"#print axioms {n}\n" for n in names_to_print))
+        f.write(imports + "".join(f"#print axioms {n}\n" for n in printable))
     r = sh(["lake", "env", "lean", path], cwd=LEAN)
     out = r.stdout
     problems = []; ok = []
@@ -261,18 +297,17 @@ def main():
     names, discharged = [], []
     try:
         t = time.time()
-        ok, log, gen_problem = lake_build(pid)
+        ok, log, gen_problems = lake_build(pid)
         if not ok:
             proof_problems.append("lake build failed: " + log.strip()[-600:])
-        if gen_problem:
-            proof_problems.append(gen_problem)
+        proof_problems += [msg for _, msg in gen_problems]
         hits = grep_forbidden()
         if hits:
             proof_problems.append("forbidden construct in Lean sources: " + "; ".join(hits[:5]))
         if ok:
-            names, discharged, probs = audit(pid, work, gen_ok=not gen_problem)
-            if gen_problem:
-                probs = [p for p in probs if 'CvnRefines' not in p]
+            broken = [tag for tag, _ in gen_problems]
+            names, discharged, probs = audit(pid, work, broken=broken)
+            probs = [p for p in probs if not any(("." + b + ".") in p for b in broken)]
             proof_problems += probs
             if tier == "thorough":
                 mods = sorted({"PyemvProps." + pid})
